@@ -10,7 +10,8 @@ HARNESS = ["harness/db/c08_changecache_test.go"]
 
 def run(ctx):
     q = ctx.quick()
-    # 1. exhaustive: policy-independent safety for every feed (incl. illegal ones), then the exact policy
+    # 1. exhaustive: policy-independent safety for every feed (incl. contradictory ones); thorough adds the exact policy and a deeper legal-feed run
+    #    (the exact policy of the tiny instance is also checked exhaustively by the Beh_ cfg in both tiers)
     model_check(ctx, SPEC, "MC_ChangeCache", "MC_ChangeCache.cfg" if q else "MC_ChangeCache_thorough.cfg", timeout=1500 if q else 6000)
     if not q:
         model_check(ctx, SPEC, "MC_ChangeCache", "MC_ChangeCache_exact.cfg", timeout=6000)
@@ -19,8 +20,8 @@ def run(ctx):
     # 2. behaviours: all of a tiny instance + seeded simulations (unconstrained feeds, legal feeds)
     behs = behaviours(ctx, SPEC, "MC_ChangeCache", "Beh_ChangeCache.cfg")
     rnd = random.Random(ctx.seed)
-    behs += per_prefix(behaviours(ctx, SPEC, "MC_ChangeCache", "Sim_ChangeCache.cfg", num=25 if q else 200, depth=14), rnd, 6)
-    behs += per_prefix(behaviours(ctx, SPEC, "MC_ChangeCache", "Sim_ChangeCache_legal.cfg", num=40 if q else 600, depth=14), rnd, 6)
+    behs += per_prefix(behaviours(ctx, SPEC, "MC_ChangeCache", "Sim_ChangeCache.cfg", num=120 if q else 800, depth=14), rnd, 4)
+    behs += per_prefix(behaviours(ctx, SPEC, "MC_ChangeCache", "Sim_ChangeCache_legal.cfg", num=150 if q else 1000, depth=14), rnd, 4)
     nseq = len(behs)
     # 3. concurrent variant: the arrivals of simulated behaviours delivered by 2-4 goroutines (final state + forward order)
     conc = []
@@ -32,14 +33,15 @@ def run(ctx):
     behs += conc
     replay_and_validate(ctx, behs, nseq)
     ctx.cov["rule"] = ("behaviours = every action sequence of length 5 over 4 document sequences + one unused range x MaxNum {0,1,100}, "
-                       "plus seeded TLC simulations of length 12 over a window of 7 (document/principal/unused singles arriving up to twice, "
-                       "8 unused ranges, Tick, Abandon, MaxNum {0,1,2,100}, entries forged older than MaxWait), half of them restricted to legal "
+                       "plus seeded TLC simulations (one successor per action kind, arguments drawn with RandomElement) of length 12 over a window of 7 (document/principal/unused singles arriving up to twice, "
+                       "8 unused ranges, document feed events with unused_sequences/recent_sequences through DocChanged, Tick, Abandon, MaxNum {0,1,2,100}, entries forged older than MaxWait), half of them restricted to legal "
                        "feeds, plus shuffled multisets delivered concurrently by 2-4 goroutines; non-trivial = the real cache skipped a gap or "
                        "delivered a late arrival during the behaviour")
     ctx.assumptions += [
         "sequences enter the buffering only through comparisons and +1/-1: the window is an offset from the cache's initialSequence (seeded bases up to 2^62)",
-        "exactness of the skipped set and no-loss are demanded for legal feeds (every sequence declared by one event identity; redelivery allowed); "
-        "at-most-once, order, high-water-mark soundness, no hidden gap, late handling and the stable sequence for every feed",
+        "skipped being a subset of the missing sequences is demanded for legal feeds (every sequence declared by one event identity; redelivery allowed); "
+        "at-most-once, no loss of a live document arrival, order, high-water-mark soundness, no hidden gap, late handling, overdue skipping and the "
+        "stable sequence for every feed (contradictory declarations included)",
         "abandonment after CacheSkippedSeqMaxWait is an explicit environment action and abandoned sequences are excluded from SkippedExact",
         "the response clause (LowSeq = stable in _changes) is bound through C01; here the exposed stable sequence itself is checked",
     ]
@@ -82,8 +84,14 @@ def replay_and_validate(ctx, behs, nseq):
             late_seen += 1
             nontriv.add(cur)
     ctx.cov["distinct_nontrivial"] += len(nontriv)
+    hist = {}
+    for b in behs:
+        for st in b["steps"]:
+            k = st["a"] if st["a"] != "Arrive" else "Arrive:" + st["kind"]
+            hist[k] = hist.get(k, 0) + 1
     ctx.cov["c08"] = {"sequential_behaviours": nseq, "concurrent_behaviours": conc_n, "trace_lines": len(rows),
                       "lines_with_skipped": skipped_seen, "lines_with_late_delivery": late_seen,
+                      "action_histogram": hist,
                       "db_wired": sum(1 for r in rows if r["a"] == "Reset" and r.get("wiring") == "db")}
     ctx.sample({"behaviour": behs[nseq // 2], "real_trace_head": rows[:3]})
     vp = validate(ctx, SPEC, "Trace_ChangeCache", "Trace_ChangeCache_P.cfg", tr, timeout=3000)
